@@ -107,6 +107,8 @@ class G:
                 self.op("sleep", 1)
             if r.random() < 0.25:
                 self.op("inject", H(self.some_topic()), r.choice([0, 1]), H(self.payload()))
+            if r.random() < 0.3:
+                self.op("ping")     # an awake client may ping: the gateway answers as for a wake-up
         self.op("connect")
 
     def gen(self):
